@@ -5,6 +5,7 @@ import asyncio
 import inspect
 import json
 import os
+import random
 from typing import Any
 
 from ..boot import VERIF
@@ -13,6 +14,8 @@ from ..vloop import VLoop
 
 THEOREMS = [
     "C29_source_shape",
+    "C29_source_buffering_holds_back",
+    "C29_dsp_buffering_yields_nothing",
     "C29_merge_source_prefix",
     "C29_merge_is_shuffle",
     "C29_error_reraised",
@@ -43,7 +46,10 @@ EXPLANATION = (
     "wrapper around the inner merge, the scripted sources themselves) record the action list of the real run, the "
     "compiled model replays it and every action's enabledness, emitted token, yielded items and phase are diffed. "
     "Search: the property is checked directly on the yielded sequences (prefix/shuffle/error identity; exists-split "
-    "sorted-burst-then-arrival-order; exactly once)."
+    "sorted-burst-then-arrival-order; exactly once), and the order clause once more from the inputs alone: arrival times "
+    "against the debounce / max window give the admissible burst lengths k, output must be stable_sort(arrival[:k]) ++ "
+    "arrival[k:]. Besides the short scripts, every run feeds long initial bursts (999..10000 items and the neighbourhood of "
+    "every integral constant of the current iter_utils.py), replayed by the model up to 3000 items and once at 10000."
 )
 LEVEL_TEXT = "proof (Lean 4) over an executable LTS model + per-run trace validation against the real generators + direct monitors"
 ASSUMPTIONS = [
@@ -52,6 +58,8 @@ ASSUMPTIONS = [
     "keys are modelled as natural numbers with <=; Python compares arbitrary keys with <",
     "the flush marker is a module-private object recognised by identity (C29_source_shape: Gen.markerInBand = false), which the model renders as the Tok.val / Tok.marker split; a stream that deliberately yields that private object is outside the domain",
     "a consumer that abandons the generator early (aclose) is outside the property and not modelled",
+    "burst lengths: bursts longer than 10000 items (20000 for lengths derived from a constant of the source) are not fed; the Lean theorems are length-independent, and the source facts dspYieldSites / bufferBranchHoldsBack pin that the buffering branch has no length- or time-dependent hand-over",
+    "the arrival-time oracle accepts either side for an item that arrives exactly when the window closes, and either origin (generator start / first item) for the first quiet period and the max window: the property text does not fix them",
     "the iteration order of the `done` set returned by asyncio.wait is a parameter of the `batch` action (all orders are covered by the theorems; the real runs exhibit only those CPython produces)",
 ]
 TRUSTED_EXTRA = [
@@ -63,7 +71,12 @@ TRUSTED_EXTRA = [
 UNIT = 1.0 / 64.0          # one tick of virtual time (dyadic: all sums are exact)
 START = 1024.0
 W_TICKS = 4                # debounce window, in ticks
-MAX_STEPS = 200_000        # loop iterations before a run is declared livelocked
+MAX_STEPS = 200_000        # loop iterations before a run is declared livelocked (raised for long bursts)
+UID_STRIDE = 100_000       # uid = source index * UID_STRIDE + position in the source
+LONG_SIZES = (999, 1000, 1001, 2500, 10000)   # burst lengths fed on every run, besides those around the source's constants
+MAX_LONG = 20_000          # longest burst derived from a constant of the source
+DERIVED_ITEMS = 40_000     # per round: total length of the bursts derived from constants (keeps the run time bounded)
+K_MAX_ITEMS = 3_000        # runs with more items go through the model only once per run (the compiled model is quadratic: appends)
 
 
 # --------------------------------------------------------------------------
@@ -80,22 +93,68 @@ class SrcError(Exception):
 class Item:
     """An item of a scripted source; compares by identity (never equal to the marker string)."""
 
-    __slots__ = ("src", "seq", "key")
+    __slots__ = ("src", "seq", "key", "t")
 
     def __init__(self, src: int, seq: int, key: int):
         self.src, self.seq, self.key = src, seq, key
+        self.t = None  # virtual time at which the item reached debounced_sorted_prefix's `inner`
 
     @property
     def uid(self) -> int:
-        return self.src * 1000 + self.seq
+        return self.src * UID_STRIDE + self.seq
 
     def __repr__(self) -> str:
         return f"<{self.src}.{self.seq} k={self.key}>"
 
 
+def run_keys(n: int, mode: str, a: int) -> list[int]:
+    """keys of a `["run", n, mode, a, ...]` step (a compact description of n consecutive items)"""
+    if mode == "desc":      # strictly descending: every item is out of order with respect to every earlier one
+        return [n - 1 - j for j in range(n)]
+    if mode == "asc":
+        return list(range(n))
+    if mode == "saw":       # ascending inside stretches of length a, restarting from 0 at each multiple of a
+        return [j % max(a, 1) for j in range(n)]
+    if mode == "few":       # a handful of distinct keys: long stretches of equal keys (stability)
+        r = random.Random(a)
+        return [r.randrange(5) for _ in range(n)]
+    r = random.Random(a)    # "rand"
+    return [r.randrange(4 * n + 1) for _ in range(n)]
+
+
+def expand_script(script: list) -> list:
+    """`["run", n, mode, a, every, ticks]` = n items with keys run_keys(n, mode, a); after every `every` items
+    (0 = never) the source sleeps `ticks` ticks.  Everything else is copied."""
+    if not any(st[0] == "run" for st in script):
+        return script
+    res: list = []
+    for st in script:
+        if st[0] != "run":
+            res.append(st)
+            continue
+        n, mode, a = int(st[1]), st[2], int(st[3])
+        every, ticks = (int(st[4]), int(st[5])) if len(st) > 5 else (0, 0)
+        for j, k in enumerate(run_keys(n, mode, a)):
+            if every and ticks and j and j % every == 0:
+                res.append(["sleep", ticks])
+            res.append(["item", k])
+    return res
+
+
+def _n_items(script: list) -> int:
+    return sum(int(st[1]) if st[0] == "run" else 1 if st[0] == "item" else 0 for st in script)
+
+
+def _short(xs: list, edge: int = 12) -> str:
+    """lists in messages: whole when small, both ends otherwise"""
+    if len(xs) <= 2 * edge + 4:
+        return repr(xs)
+    return "[" + ", ".join(map(repr, xs[:edge])) + f", ... {len(xs) - 2 * edge} more ..., " + ", ".join(map(repr, xs[-edge:])) + "]"
+
+
 async def scripted_source(log: list, idx: int, script: list):
     seq = 0
-    for st in script:
+    for st in expand_script(script):
         op = st[0]
         if op == "sleep":
             await asyncio.sleep(st[1] * UNIT)
@@ -105,6 +164,7 @@ async def scripted_source(log: list, idx: int, script: list):
         elif op == "item":
             it = Item(idx, seq, st[1])
             seq += 1
+            it.t = _loop_time()
             log.append(("P", idx, it))
             yield it
         elif op == "raise":
@@ -132,9 +192,10 @@ class OrderedTask(asyncio.Task):
 
 
 class GuardLoop(VLoop):
-    def __init__(self, salt: int = 0) -> None:
+    def __init__(self, salt: int = 0, max_steps: int = MAX_STEPS) -> None:
         super().__init__(START)
         self.steps = 0
+        self.max_steps = max_steps
         self.livelock = False
         self._created = 0
         self._mul = (1, 3, 5, 7)[salt % 4]
@@ -148,7 +209,7 @@ class GuardLoop(VLoop):
 
     def _run_once(self) -> None:  # type: ignore[override]
         self.steps += 1
-        if self.steps > MAX_STEPS:
+        if self.steps > self.max_steps:
             self.livelock = True
             self.stop()
             return
@@ -159,8 +220,8 @@ class Hang(Exception):
     pass
 
 
-def run_loop(main, salt: int = 0) -> Any:
-    loop = GuardLoop(salt)
+def run_loop(main, salt: int = 0, max_steps: int = MAX_STEPS) -> Any:
+    loop = GuardLoop(salt, max_steps)
     asyncio.set_event_loop(loop)
     try:
         task = loop.create_task(main())
@@ -345,13 +406,16 @@ def run_dsp_case(iu: Any, case: dict) -> dict:
         log = pr.log
         iu.merge_generators = pr.probed_merge
         out: list = []
-        res: dict = {"log": log, "out": out, "exc": None, "hang": None}
+        res: dict = {"log": log, "out": out, "exc": None, "hang": None, "t0": START}
         hops = list(case.get("hops") or [0])
+        scripts = case["scripts"] if case["kind"] == "nested" else [case["script"]]
+        n_items = sum(_n_items(sc) for sc in scripts)
 
         async def tap(agen: Any):
             # what reaches debounced_sorted_prefix is the arrival order of its `inner`
             try:
                 async for x in agen:
+                    x.t = _loop_time()
                     log.append(("P", 0, x))
                     yield x
             finally:
@@ -366,6 +430,7 @@ def run_dsp_case(iu: Any, case: dict) -> dict:
                 inner = tap(pr.real_merge(*gens))
             else:
                 inner = scripted_source(log, 0, case["script"])
+            res["t0"] = _loop_time()  # the debounce window opens when the generator is first advanced
             it = iu.debounced_sorted_prefix(inner, key=lambda x: x.key, debounce_seconds=W_TICKS * UNIT,
                                             max_window_seconds=case.get("max_ticks", 8) * UNIT)
             k = 0
@@ -386,7 +451,7 @@ def run_dsp_case(iu: Any, case: dict) -> dict:
                 k += 1
 
         try:
-            run_loop(main, int(case.get("salt", 0)))
+            run_loop(main, int(case.get("salt", 0)), max(MAX_STEPS, 64 * n_items))
         except Hang as h:
             res["hang"] = str(h)
         return res
@@ -448,7 +513,8 @@ def _phase_after(log: list, j: int) -> tuple[str, Any, list]:
     emit = None
     phase = "wait"
     outs: list = []
-    for ev in log[j + 1:]:
+    for i in range(j + 1, len(log)):  # (no slice: logs of long bursts have tens of thousands of events)
+        ev = log[i]
         if ev[0] in ("B", "R"):
             break
         if ev[0] == "G" and emit is None and phase == "wait":
@@ -665,6 +731,122 @@ def _stable_sorted(xs: list) -> list:
     return sorted(xs, key=lambda x: x.key)
 
 
+def burst_bounds(times: list, t0: float, debounce: float, max_window: float) -> tuple[int, int]:
+    """From the arrival times alone: (lo, hi) such that the initial burst is arrival[:k] for some lo <= k <= hi.
+
+    The window closes after a quiet period of `debounce` or when `max_window` is over.  Where the property
+    text leaves room the bounds are loose (both readings allowed): an item that arrives exactly when the
+    window closes may be on either side; the quiet period before the very first item and the max window
+    may be counted from the start of the generator or from the first item.
+      lo: leading items that arrive less than `debounce` after their predecessor (the first one: after the
+          start) and less than `max_window` after the start - the window cannot have closed before them;
+      hi: the first item that arrives more than `debounce` after its predecessor, or more than `max_window`
+          after the first item - the window has certainly closed before it."""
+    n = len(times)
+    lo = 0
+    prev = t0
+    for t in times:
+        if t - prev < debounce and t - t0 < max_window:
+            lo += 1
+            prev = t
+        else:
+            break
+    hi = n
+    for i in range(1, n):
+        if times[i] - times[i - 1] > debounce or times[i] - times[0] > max_window:
+            hi = i
+            break
+    return lo, max(hi, lo)
+
+
+def _sorted_runs(out: list, arrival: list, upto: int) -> list[int] | None:
+    """Lengths of consecutive stretches of arrival[:upto] that were each yielded as one stable-sorted run
+    (None when out[:upto] is not such a concatenation)."""
+    runs: list[int] = []
+    pos = 0
+    while pos < upto:
+        balance: dict = {}
+        open_ids = 0
+        end = None
+        for e in range(pos, upto):
+            for uid, d in ((out[e].uid, 1), (arrival[e].uid, -1)):
+                b = balance.get(uid, 0)
+                if b == 0:
+                    open_ids += 1
+                b += d
+                balance[uid] = b
+                if b == 0:
+                    open_ids -= 1
+            if open_ids == 0:
+                end = e + 1
+                break
+        if end is None:
+            return None
+        if out[pos:end] != _stable_sorted(arrival[pos:end]):
+            return None
+        runs.append(end - pos)
+        pos = end
+    return runs
+
+
+def monitor_dsp_timed(case: dict, res: dict, arrival: list) -> list[Violation]:
+    """The order clause recomputed from the inputs only (what arrived, when, the two window parameters):
+    output == stable_sort(arrival[:k]) + arrival[k:] for a k that the arrival times allow.  Nothing of
+    the implementation's state or internal stream is read."""
+    out, exc = res["out"], res["exc"]
+    if exc is not None:
+        # an error ends the stream: what was yielded must still be the beginning of such a sequence
+        if not out:
+            return []
+        arrival = arrival[:len(out)]
+    if len(out) != len(arrival) or {x.uid for x in out} != {x.uid for x in arrival}:
+        if exc is not None:
+            return [Violation("C29/dsp_output_before_error_not_a_prefix",
+                              f"inner produced {_short(arrival)} ... and raised; the {len(out)} yielded items {_short(out)} are not its first {len(out)} items", case)]
+        return []  # lost / duplicated: reported by the caller
+    times = [x.t for x in arrival]
+    if any(t is None for t in times):
+        return []
+    lo, hi = burst_bounds(times, res["t0"], W_TICKS * UNIT, case.get("max_ticks", 8) * UNIT)
+    n = len(arrival)
+    s = n  # out[s:] is arrival[s:], item by item
+    while s > 0 and out[s - 1] is arrival[s - 1]:
+        s -= 1
+    k = max(s, lo)  # if any admissible split works, this one does
+    if k <= hi and out[:k] == _stable_sorted(arrival[:k]):
+        return []
+    facts = f"{n} items arrived, debounce window of {W_TICKS} ticks, max window {case.get('max_ticks', 8)} ticks: the initial burst is the first k items, {lo} <= k <= {hi}"
+    if s > hi:
+        if out[:s] == _stable_sorted(arrival[:s]):
+            return [Violation("C29/dsp_sorted_past_quiet_period",
+                              f"{facts}; the output is the first {s} items sorted: items that arrived after the window had closed were "
+                              f"held back and sorted instead of being passed on in arrival order; arrival {_short(arrival)}, output {_short(out)}", case)]
+        j = next(i for i in range(n - 1, -1, -1) if out[i] is not arrival[i])
+        return [Violation("C29/dsp_later_items_reordered",
+                          f"{facts}; position {j} (after the window had closed) holds {out[j]!r} instead of {arrival[j]!r}: later items "
+                          f"are not in arrival order; arrival {_short(arrival)}, output {_short(out)}", case)]
+    # the first `lo` items all arrived inside one debounce window: they must come out as ONE sorted run
+    if s < lo and out[:s] == _stable_sorted(arrival[:s]):
+        return [Violation("C29/dsp_burst_cut_short",
+                          f"{facts}; only the first {s} were sorted, items {s}..{lo - 1} arrived inside the window but were passed through "
+                          f"unsorted; arrival {_short(arrival)}, output {_short(out)}", case)]
+    runs = _sorted_runs(out, arrival, k)
+    at = {x.uid: i for i, x in enumerate(arrival)}
+    bad = next(i for i in range(1, k + 1) if i == k or out[i].key < out[i - 1].key or
+               (out[i].key == out[i - 1].key and at[out[i].uid] < at[out[i - 1].uid])) if k else 0
+    if runs is not None and len(runs) >= 2:
+        return [Violation("C29/dsp_burst_emitted_as_several_sorted_runs",
+                          f"{facts}; the first {k} outputs are not one sorted burst but {len(runs)} separately sorted runs of lengths "
+                          f"{_short(runs, 4)} (consecutive stretches of the arrival order, each sorted on its own); key order first breaks at "
+                          f"output position {bad}: {_short(out[max(bad - 2, 0):bad + 2])}; arrival {_short(arrival)}, output {_short(out)}", case)]
+    if bad < k:
+        return [Violation("C29/dsp_window_burst_not_sorted",
+                          f"{facts}; the first {k} outputs are not in (stable) key order: position {bad}: {_short(out[max(bad - 2, 0):bad + 2])}; "
+                          f"arrival {_short(arrival)}, output {_short(out)}", case)]
+    return [Violation("C29/dsp_window_burst_wrong_items",
+                      f"{facts}; the first {k} outputs are sorted but are not the first {k} arrived items; arrival {_short(arrival)}, output {_short(out)}", case)]
+
+
 def monitor_dsp(case: dict, res: dict) -> list[Violation]:
     if res["hang"]:
         return [Violation("C29/dsp_no_termination", f"debounced_sorted_prefix did not finish on a finite source ({res['hang']})", case)]
@@ -672,45 +854,49 @@ def monitor_dsp(case: dict, res: dict) -> list[Violation]:
     arrival = _produced(log, 0)
     raised = [ev[2] for ev in log + res.get("sub", []) if ev[0] == "E"]
     scripts = case["scripts"] if case["kind"] == "nested" else [case["script"]]
-    n_items = sum(1 for sc in scripts for st in sc if st[0] == "item")
+    n_items = sum(_n_items(sc) for sc in scripts)
     for x in out:
         if not isinstance(x, Item):
             return [Violation("C29/dsp_foreign_item", f"yielded {x!r}, which inner did not produce", case)]
     ids = [x.uid for x in out]
     if len(set(ids)) < len(ids):
-        return [Violation("C29/dsp_duplicate", f"an item was yielded twice: {out}", case)]
+        return [Violation("C29/dsp_duplicate", f"an item was yielded twice: {_short(out)}", case)]
     if exc is None:
         if raised:
             return [Violation("C29/dsp_error_swallowed", f"inner raised {raised[0]!r} but debounced_sorted_prefix returned normally", case)]
         if sorted(ids) != sorted(x.uid for x in arrival) or len(arrival) != n_items:
-            return [Violation("C29/dsp_lost_item", f"inner produced {arrival}, output is {out}", case)]
+            return [Violation("C29/dsp_lost_item", f"inner produced {_short(arrival)}, output is {_short(out)}", case)]
     elif not any(exc is r for r in raised):
         return [Violation("C29/dsp_spurious_error" if not raised else "C29/dsp_wrong_error",
                           f"debounced_sorted_prefix raised {exc!r}; inner raised {raised!r}", case)]
-    # order.  The burst is what reached the consumer loop before it saw the marker (observed on the
+    # order, first from the inputs alone (arrival times against the debounce window) ...
+    vt = monitor_dsp_timed(case, res, arrival)
+    if vt:
+        return vt
+    # ... then against the merged stream the real consumer loop saw.  The burst is what reached the consumer loop before it saw the marker (observed on the
     # real merged stream); the output must be: nothing before that point, then the burst in key order,
     # then every later item in arrival order.
     stream = [ev[1] for ev in log if ev[0] == "G"]
     mk = next((j for j, x in enumerate(stream) if _is_marker(x)), None)
     consumed = [x for x in stream if isinstance(x, Item)]
     if not _is_prefix(consumed, arrival):
-        return [Violation("C29/dsp_stream_mismatch", f"consumer loop received {consumed}, inner produced {arrival}", case)]
+        return [Violation("C29/dsp_stream_mismatch", f"consumer loop received {_short(consumed)}, inner produced {_short(arrival)}", case)]
     first_o = next((j for j, ev in enumerate(log) if ev[0] == "O"), None)
     mk_ev = next((j for j, ev in enumerate(log) if ev[0] == "G" and _is_marker(ev[1])), None)
     if first_o is not None and (mk_ev is None or first_o < mk_ev):
         return [Violation("C29/dsp_later_before_burst",
-                          f"arrival {arrival}, output {out}: {out[0]} was yielded before the buffered burst was flushed", case)]
+                          f"arrival {_short(arrival)}, output {_short(out)}: {out[0]} was yielded before the buffered burst was flushed", case)]
     if mk is None:
         return []  # never flushed (error first): nothing was yielded, checked above
     k = mk
     head, tail = out[:k], out[k:]
     later = consumed[k:]
     if {x.uid for x in head} != {x.uid for x in consumed[:k]} or len(head) != k:
-        return [Violation("C29/dsp_order", f"burst {consumed[:k]}, output {out}: the first {k} outputs are not the burst", case)]
+        return [Violation("C29/dsp_order", f"burst {_short(consumed[:k])}, output {_short(out)}: the first {k} outputs are not the burst", case)]
     if not all(a.key <= b.key for a, b in zip(head, head[1:])):
-        return [Violation("C29/dsp_burst_not_sorted", f"burst {consumed[:k]} was yielded as {head}: not in key order", case)]
+        return [Violation("C29/dsp_burst_not_sorted", f"burst {_short(consumed[:k])} was yielded as {_short(head)}: not in key order", case)]
     if not (_is_prefix(tail, later) and (exc is not None or len(tail) == len(later))):
-        return [Violation("C29/dsp_later_not_in_arrival_order", f"items after the burst arrived as {later}, were yielded as {tail}", case)]
+        return [Violation("C29/dsp_later_not_in_arrival_order", f"items after the burst arrived as {_short(later)}, were yielded as {_short(tail)}", case)]
     return []
 
 
@@ -761,6 +947,71 @@ def gen_nested_case(rng) -> dict:
             "hops": [rng.randint(0, 2) for _ in range(rng.randint(1, 3))], "salt": rng.randrange(32)}
 
 
+def long_sizes() -> list[int]:
+    """burst lengths for the long-burst stream: the fixed ones plus the neighbourhood of every integral constant
+    found in the CURRENT iter_utils.py (re-read on every run): a cap / threshold / chunk size on the number of
+    held-back items can only be one of those."""
+    from ..gen import iterutils as gen
+
+    sizes = set(LONG_SIZES)
+    try:
+        consts = gen.int_constants()
+    except Exception:
+        consts = []
+    spent = 0
+    # nearest neighbours of every constant first; stop adding when a round would exceed DERIVED_ITEMS items
+    for offs in (lambda c: c + 1, lambda c: c + 2, lambda c: c, lambda c: c - 1, lambda c: c + max(c // 10, 3),
+                 lambda c: 2 * c + 1, lambda c: 2 * c + c // 2 + 2):
+        for c in consts:
+            n = offs(c)
+            if 2 <= n <= MAX_LONG and n not in sizes and spent + n <= DERIVED_ITEMS:
+                sizes.add(n)
+                spent += n
+    return sorted(sizes)
+
+
+def gen_long_case(rng, n: int, consts: list[int]) -> dict:
+    """One long initial burst of n items (all inside one debounce window unless the max window cuts it), keys out of
+    order across every possible chunk boundary, optionally followed - after a quiet period - by later items whose
+    arrival order is not key order."""
+    mode = rng.choice(["desc", "desc", "rand", "rand", "saw", "few"])
+    a = rng.randrange(1 << 16)
+    if mode == "saw":
+        a = rng.choice([c for c in consts if 2 <= c <= n] or [max(n // 3, 2)])
+    pace = rng.random()
+    if pace < 0.45:
+        every, ticks = 0, 0                       # back to back: the whole burst in one instant
+    else:
+        every = rng.choice([1, 7, 100, max(n // 3, 1), max(n - 1, 1)])
+        ticks = rng.choice([1, 2, W_TICKS - 1])   # always shorter than the debounce window
+    script: list = []
+    if rng.random() < 0.2:
+        script.append(["sleep", rng.choice([1, W_TICKS - 1])])
+    script.append(["run", n, mode, a, every, ticks])
+    unbounded = 1 << 20
+    max_ticks = unbounded
+    if every and rng.random() < 0.25:
+        # the max window closes in the middle of the burst: the rest of the run is `later`
+        total = ((n - 1) // every) * ticks
+        if total >= 2:
+            max_ticks = rng.randint(1, total)
+    r = rng.random()
+    if r < 0.45:
+        script.append(["sleep", rng.choice([W_TICKS + 1, 2 * W_TICKS, 3 * W_TICKS])])
+        for _ in range(rng.randint(1, 4)):
+            script.append(["item", rng.randint(0, 6)])
+            if rng.random() < 0.3:
+                script.append(["hop", rng.randint(1, 3)])
+    elif r < 0.6:
+        # a long stretch AFTER the quiet period: must come out in arrival order, however long it is
+        script.append(["sleep", rng.choice([W_TICKS + 1, 2 * W_TICKS])])
+        script.append(["run", min(rng.choice([n, max(n // 2, 2)]), 2000), "desc", 0, 0, 0])
+    if rng.random() < 0.08:
+        script.append(["raise", rng.randint(1, 9)])
+    return {"kind": "dsp", "script": script, "max_ticks": max_ticks, "hops": rng.choice([[0], [0], [0], [1], [0, 2]]),
+            "salt": rng.randrange(32)}
+
+
 def marker_literals() -> list[str]:
     """string values an in-band marker could have: the historical one and whatever the current source compares with"""
     from ..gen import iterutils as gen
@@ -802,7 +1053,10 @@ def run(env: Env) -> Outcome:
     out = Outcome()
     out.rule = ("scripted sources (items with delays in ticks of 1/4 debounce window, 0..4 extra sleep(0) hops, optional raise at a "
                 "chosen position, 0..4 sources, consumer hops 0..2, both stop_on_first_completion settings) under the virtual-time "
-                "loop; non-trivial = at least two items yielded; distinct by case")
+                "loop; plus long initial bursts (999/1000/1001/2500/10000 items, three random lengths in 7..5000 and the neighbourhood of "
+                "every integral constant of the current iter_utils.py; descending / random / saw-tooth / few-valued keys; back to back or paced inside the "
+                "debounce window; optionally cut by the max window; optionally followed by later items or a long later stretch); "
+                "non-trivial = at least two items yielded; distinct by case")
     cases: list[dict] = []
     if env.replay is not None:
         cases.append(env.replay["payload"]["case"])
@@ -816,10 +1070,20 @@ def run(env: Env) -> Outcome:
     lits = marker_literals()
     for _ in range(n // 10):
         cases.append(gen_str_case(env.rng, lits))
+    # long initial bursts (the generated scripts above have at most 6 items)
+    from ..gen import iterutils as gen_facts
+
+    consts = gen_facts.int_constants()
+    sizes = long_sizes()
+    out.notes.append(f"long-burst sizes this run: {sizes} (integral constants in iter_utils.py: {consts or 'none'})")
+    for _ in range(min(env.budget(2, 8), 8)):
+        for sz in sizes + [env.rng.randint(7, 100), env.rng.randint(101, 998), env.rng.randint(1003, 5000)]:
+            cases.append(gen_long_case(env.rng, sz, consts))
 
     all_ops: list[str] = []
     all_exp: list[str] = []
     owner: list[int] = []
+    big_in_k = False  # the first run above K_MAX_ITEMS (normally a 10000-item burst) is replayed by the model too
     for ci, case in enumerate(cases):
         if case["kind"] == "merge":
             res = run_merge_case(iu, case)
@@ -846,7 +1110,12 @@ def run(env: Env) -> Outcome:
         else:
             res = run_dsp_case(iu, case)
             vs = monitor_dsp(case, res)
-            ops, exp = ([], []) if res["hang"] else dsp_trace(case, res)
+            size = _n_items(case["script"])
+            in_k = size <= K_MAX_ITEMS or not big_in_k
+            if in_k and size > K_MAX_ITEMS:
+                big_in_k = True
+                out.count("dsp:long:model_replayed_above_%d" % K_MAX_ITEMS)
+            ops, exp = ([], []) if (res["hang"] or not in_k) else dsp_trace(case, res)
             yielded = res["out"]
             out.count("dsp:" + ("hang" if res["hang"] else "error" if res["exc"] is not None else "ok"))
             log = res["log"]
@@ -863,11 +1132,14 @@ def run(env: Env) -> Outcome:
                         break
                     burst += 1
             out.count("dsp:burst=" + ("0" if burst == 0 else "1" if burst == 1 else "2+") + (",later" if nb > burst else ",nolater"))
+            if nb >= 100:
+                mag = "100.." if burst < 1000 else "1000.." if burst < 2500 else "2500.." if burst < 10000 else "10000.."
+                out.count(f"dsp:long:burst={mag}" + (",later" if nb > burst else ",nolater"))
         out.evaluations += 1
         if len(yielded) >= 2:
             out.nontrivial(_case_key(case))
         out.violations += vs
-        out.sample({"case": case, "yielded": [repr(x) for x in yielded], "error": repr(res["exc"]) if res["exc"] is not None else None})
+        out.sample({"case": case, "yielded": [repr(x) for x in yielded[:40]] + (["..."] if len(yielded) > 40 else []), "error": repr(res["exc"]) if res["exc"] is not None else None})
         all_ops += ops
         all_exp += exp
         owner += [ci] * len(ops)
